@@ -97,8 +97,8 @@ impl Drop for TmpDir {
     }
 }
 
-/// What `rnd` must satisfy: stdout (hex + "\n\n", or raw bytes with -r) decodes to a bundle that validates,
-/// and stderr is that bundle's id followed by a newline.
+/// What `rnd` must satisfy: stdout (hex text, surrounding white space ignored; or raw bytes with -r) decodes to a bundle that
+/// validates, and stderr is that bundle's id (surrounding white space ignored).
 fn rnd_oracle(argv: &[Vec<u8>], stdout: &[u8], stderr: &[u8]) -> (bool, bool) {
     let raw = argv.len() == 3 && argv[2] == b"-r";
     let bytes: Option<Vec<u8>> = if raw {
@@ -106,15 +106,14 @@ fn rnd_oracle(argv: &[Vec<u8>], stdout: &[u8], stderr: &[u8]) -> (bool, bool) {
     } else {
         std::str::from_utf8(stdout)
             .ok()
-            .and_then(|s| s.strip_suffix("\n\n"))
-            .and_then(|s| bp7::helpers::unhexify(s).ok())
+            .and_then(|s| bp7::helpers::unhexify(s.trim()).ok())
     };
     let bndl = bytes.and_then(|b| std::panic::catch_unwind(|| Bundle::try_from(b).ok()).ok().flatten());
     match bndl {
         Some(b) => {
             let valid = b.validate().is_ok();
-            let id = format!("{}\n", b.id());
-            (valid, stderr == id.as_bytes())
+            let id = b.id();
+            (valid, std::str::from_utf8(stderr).map(|e| e.trim() == id.trim()).unwrap_or(false))
         }
         None => (false, false),
     }
